@@ -825,11 +825,14 @@ def run_pairs(ctx, pairs, on_result=None, workers=WORKERS):
     weights = [model_cost('wrap' if p.kind == 'wrap' else p.img.fmt, len(p.img.data), p.sizes,
                           p.img.params.get('meta_off') if isinstance(p.img.params.get('meta_off'), int) else None)
                for p in pairs]
-    replies = ask_parallel(ctx.driver, lines, workers, weights)
+    # the model runs in driver processes while this thread runs the implementation
+    with cf.ThreadPoolExecutor(1) as ex:
+        fut = ex.submit(ask_parallel, ctx.driver, lines, workers, weights)
+        impls = [run_impl(p, ctx.rng) for p in pairs]
+        replies = fut.result()
     out = []
-    for p, rep in zip(pairs, replies):
+    for p, rep, impl in zip(pairs, replies, impls):
         ctx.evaluations += 1
-        impl = run_impl(p, ctx.rng)
         ctx.count('corr/%s/%s' % (p.kind, p.img.tag.split('/')[0]))
         ctx.count('chunking/' + p.ctag)
         ctx.count('fmt/' + p.img.fmt)
